@@ -2,7 +2,8 @@ from vlib import core
 from vlib.plan import Phase, run_phases
 
 RULE = ("scenario = random task tree (task_group run/defer/run_and_wait, tasks submitting tasks, parallel_for x4 partitioners, "
-        "parallel_invoke, nested task_arena::execute, isolate, enqueued task_handles, fire-and-forget enqueue; 1-200 units with unique ids) "
+        "parallel_invoke, nested task_arena::execute, isolate, isolate-split (an outer group fed from inside a nested isolated region and waited for outside it, "
+        "while an inner group is waited for with the other isolation's tasks in the pool), enqueued task_handles, fire-and-forget enqueue; 1-200 units with unique ids) "
         "run by 1-4 external threads at once in a hot arena of 1-16 slots under hook-driven delays; checked after every wait: each unit in the "
         "construct's id range ran exactly once (or was skipped exactly once under a cancelled group), its plain payload is visible, its exit "
         "stamp precedes the wait's return. non-trivial = units of one scenario ran on >= 2 threads; distinct = distinct "
@@ -34,7 +35,10 @@ def run(tier, seed, scale):
     chk.require(h.get("10", {}).get("n", 0) > 1000, "fewer than 1000 steals observed")
     chk.require(h.get("2", {}).get("n", 0) > 100, "owner/thief arbitration window entered fewer than 100 times")
     chk.require(h.get("20", {}).get("n", 0) > 100, "mailbox/proxy claims observed fewer than 100 times")
+    chk.require(chk.stats.get("isolate_split_inner_waits_with_foreign_tasks_in_pool", 0) > 500, "fewer than 500 waits with tasks of another isolation in the waiter's pool")
     chk.extra["windows"] = {
+        "isolate_split_constructs": chk.stats.get("isolate_split_constructs", 0),
+        "waits_with_tasks_of_another_isolation_in_the_pool": chk.stats.get("isolate_split_inner_waits_with_foreign_tasks_in_pool", 0),
         "steals": h.get("10", {}).get("n", 0),
         "owner_thief_arbitration[thief_won,single_task,more_tasks]": h.get("2", {}).get("h", [0] * 8)[:3],
         "proxy_claims": h.get("20", {}).get("n", 0),
